@@ -27,7 +27,7 @@ for n in names:
     rows.append((n, prop, res, kinds, round(time.time() - t)))
     print(n, res, kinds, rows[-1][4], "s", flush=True)
     json.dump(rows, open("/verif/out/official_pass.json", "w"))
-with open("/verif/seeded/RESULTS.md", "w") as f:
+with open("/verif/seeded/RESULTS_on_repo.md", "w") as f:
     f.write("# Seeded changes: final pass\n\nProcedure per seed: `git -C /repo apply seeded/<name>/patch.diff`; `./check.py <property> --tier quick`; "
             "`git -C /repo checkout -- .` (tools/official_pass.py). DETECTED = exit code 1 with a VIOLATION line.\n\n"
             "| seed | property | result | replay kind | seconds |\n|---|---|---|---|---|\n")
